@@ -124,6 +124,25 @@ def pdag(draw, p_min=1, p_max=7, max_undirected=None, weights=(1, 1, 1, 1)):
     return A
 
 
+@st.composite
+def disjoint_union(draw, part, k_min=3, k_max=4, isolated=1):
+    """Several small graphs side by side (plus up to `isolated` isolated nodes), labels interleaved at random: code that
+    treats connected components separately - and recombines what it found per component - only shows on such graphs."""
+    parts = [draw(part) for _ in range(draw(st.integers(k_min, k_max)))]
+    extra = draw(st.integers(0, isolated))
+    p = sum(len(x) for x in parts) + extra
+    lab = list(draw(st.permutations(list(range(p)))))
+    B = [[0] * p for _ in range(p)]
+    off = 0
+    for A in parts:
+        for i in range(len(A)):
+            for j in range(len(A)):
+                if A[i][j] != 0:
+                    B[lab[off + i]][lab[off + j]] = A[i][j]
+        off += len(A)
+    return B
+
+
 def index_presentation(idx):
     """How an index list is handed to the library: the case stores (kind, list)."""
     kinds = ["list", "tuple", "array"]
